@@ -55,6 +55,7 @@ pub const FAMILIES: &[(&str, u64)] = &[
     ("make_dwo", 32),
     ("dwp_unit_sections", 13),
     ("dwp_unit_sections_v2", 13),
+    ("names", 0),
 ];
 
 pub fn total_indices() -> u64 {
@@ -117,20 +118,58 @@ impl<'a> Loader<'a> {
     }
 }
 
-fn expect_section<'a, S: Section<R<'a>>>(ctx: &mut Ctx<'_>, what: &str, s: &S, m: &Markers) {
+/// `id` is the section type the *harness* pairs with this field (written out by hand at every
+/// call site; nothing is derived from gimli's own `Section::id()`), which is also checked.
+fn expect_section<'a, S: Section<R<'a>>>(ctx: &mut Ctx<'_>, what: &str, s: &S, id: SectionId, m: &Markers) {
     let got = s.reader().slice();
-    let want = m.get(S::id());
-    ev!(ctx, "{} {} len={}", what, S::id().name(), got.len());
+    let want = m.get(id);
+    ev!(ctx, "{} {} len={}", what, std_names(id).0, got.len());
     if got != want || got.as_ptr() != want.as_ptr() {
         ctx.violate(
             "c17_routing",
             format!(
                 "{}: field of section type {} holds {:?}",
                 what,
-                S::id().name(),
+                std_names(id).0,
                 String::from_utf8_lossy(&got[..got.len().min(24)])
             ),
         );
+    }
+    if S::id() != id || S::section_name() != std_names(id).0 || S::dwo_section_name() != std_names(id).1 || S::xcoff_section_name() != std_names(id).2 {
+        ctx.violate(
+            "c17_routing",
+            format!("{}: the type of the {} field reports id {:?}, names {:?} / {:?} / {:?}", what, std_names(id).0, S::id(), S::section_name(), S::dwo_section_name(), S::xcoff_section_name()),
+        );
+    }
+}
+
+/// The section names of the DWARF standard (ELF), of split DWARF (.dwo files and packages) and
+/// of XCOFF, written out independently of gimli's tables.
+pub fn std_names(id: SectionId) -> (&'static str, Option<&'static str>, Option<&'static str>) {
+    match id {
+        SectionId::DebugAbbrev => (".debug_abbrev", Some(".debug_abbrev.dwo"), Some(".dwabrev")),
+        SectionId::DebugAddr => (".debug_addr", None, None),
+        SectionId::DebugAranges => (".debug_aranges", None, Some(".dwarnge")),
+        SectionId::DebugCuIndex => (".debug_cu_index", Some(".debug_cu_index"), None),
+        SectionId::DebugFrame => (".debug_frame", None, Some(".dwframe")),
+        SectionId::EhFrame => (".eh_frame", None, None),
+        SectionId::EhFrameHdr => (".eh_frame_hdr", None, None),
+        SectionId::DebugInfo => (".debug_info", Some(".debug_info.dwo"), Some(".dwinfo")),
+        SectionId::DebugLine => (".debug_line", Some(".debug_line.dwo"), Some(".dwline")),
+        SectionId::DebugLineStr => (".debug_line_str", None, None),
+        SectionId::DebugLoc => (".debug_loc", Some(".debug_loc.dwo"), Some(".dwloc")),
+        SectionId::DebugLocLists => (".debug_loclists", Some(".debug_loclists.dwo"), None),
+        SectionId::DebugMacinfo => (".debug_macinfo", Some(".debug_macinfo.dwo"), Some(".dwmac")),
+        SectionId::DebugMacro => (".debug_macro", Some(".debug_macro.dwo"), None),
+        SectionId::DebugNames => (".debug_names", None, None),
+        SectionId::DebugPubNames => (".debug_pubnames", None, Some(".dwpbnms")),
+        SectionId::DebugPubTypes => (".debug_pubtypes", None, Some(".dwpbtyp")),
+        SectionId::DebugRanges => (".debug_ranges", None, Some(".dwrnges")),
+        SectionId::DebugRngLists => (".debug_rnglists", Some(".debug_rnglists.dwo"), None),
+        SectionId::DebugStr => (".debug_str", Some(".debug_str.dwo"), Some(".dwstr")),
+        SectionId::DebugStrOffsets => (".debug_str_offsets", Some(".debug_str_offsets.dwo"), None),
+        SectionId::DebugTuIndex => (".debug_tu_index", Some(".debug_tu_index"), None),
+        SectionId::DebugTypes => (".debug_types", Some(".debug_types.dwo"), None),
     }
 }
 
@@ -142,20 +181,20 @@ fn expect_ptr_in(ctx: &mut Ctx<'_>, what: &str, found: Option<(SectionId, usize)
 }
 
 fn check_dwarf<'a>(ctx: &mut Ctx<'_>, what: &str, d: &Dwarf<R<'a>>, m: &Markers, addr_m: &Markers, ranges_m: &Markers) {
-    expect_section(ctx, what, &d.debug_abbrev, m);
-    expect_section(ctx, what, &d.debug_addr, addr_m);
-    expect_section(ctx, what, &d.debug_aranges, m);
-    expect_section(ctx, what, &d.debug_info, m);
-    expect_section(ctx, what, &d.debug_line, m);
-    expect_section(ctx, what, &d.debug_line_str, m);
-    expect_section(ctx, what, &d.debug_macinfo, m);
-    expect_section(ctx, what, &d.debug_macro, m);
-    expect_section(ctx, what, &d.debug_names, m);
-    expect_section(ctx, what, &d.debug_str, m);
-    expect_section(ctx, what, &d.debug_str_offsets, m);
-    expect_section(ctx, what, &d.debug_types, m);
-    expect_section(ctx, what, d.ranges.debug_ranges(), ranges_m);
-    expect_section(ctx, what, d.ranges.debug_rnglists(), m);
+    expect_section(ctx, what, &d.debug_abbrev, SectionId::DebugAbbrev, m);
+    expect_section(ctx, what, &d.debug_addr, SectionId::DebugAddr, addr_m);
+    expect_section(ctx, what, &d.debug_aranges, SectionId::DebugAranges, m);
+    expect_section(ctx, what, &d.debug_info, SectionId::DebugInfo, m);
+    expect_section(ctx, what, &d.debug_line, SectionId::DebugLine, m);
+    expect_section(ctx, what, &d.debug_line_str, SectionId::DebugLineStr, m);
+    expect_section(ctx, what, &d.debug_macinfo, SectionId::DebugMacinfo, m);
+    expect_section(ctx, what, &d.debug_macro, SectionId::DebugMacro, m);
+    expect_section(ctx, what, &d.debug_names, SectionId::DebugNames, m);
+    expect_section(ctx, what, &d.debug_str, SectionId::DebugStr, m);
+    expect_section(ctx, what, &d.debug_str_offsets, SectionId::DebugStrOffsets, m);
+    expect_section(ctx, what, &d.debug_types, SectionId::DebugTypes, m);
+    expect_section(ctx, what, d.ranges.debug_ranges(), SectionId::DebugRanges, ranges_m);
+    expect_section(ctx, what, d.ranges.debug_rnglists(), SectionId::DebugRngLists, m);
     let id = |m: &Markers, s: SectionId| ReaderOffsetId(m.get(s).as_ptr() as u64);
     expect_ptr_in(ctx, what, d.locations.lookup_offset_id(id(m, SectionId::DebugLoc)), SectionId::DebugLoc);
     expect_ptr_in(ctx, what, d.locations.lookup_offset_id(id(m, SectionId::DebugLocLists)), SectionId::DebugLocLists);
@@ -257,19 +296,19 @@ pub fn run(case: &Case, ctx: &mut Ctx<'_>) {
             check_requests(ctx, "DwarfPackageSections::load", &loader.log.borrow(), 13, fail_at, r.is_err());
             if let Ok(s) = r {
                 ctx.item();
-                expect_section(ctx, "dwp_sections", &s.cu_index, &m);
-                expect_section(ctx, "dwp_sections", &s.tu_index, &m);
-                expect_section(ctx, "dwp_sections", &s.debug_abbrev, &m);
-                expect_section(ctx, "dwp_sections", &s.debug_info, &m);
-                expect_section(ctx, "dwp_sections", &s.debug_line, &m);
-                expect_section(ctx, "dwp_sections", &s.debug_macinfo, &m);
-                expect_section(ctx, "dwp_sections", &s.debug_macro, &m);
-                expect_section(ctx, "dwp_sections", &s.debug_str, &m);
-                expect_section(ctx, "dwp_sections", &s.debug_str_offsets, &m);
-                expect_section(ctx, "dwp_sections", &s.debug_loc, &m);
-                expect_section(ctx, "dwp_sections", &s.debug_loclists, &m);
-                expect_section(ctx, "dwp_sections", &s.debug_rnglists, &m);
-                expect_section(ctx, "dwp_sections", &s.debug_types, &m);
+                expect_section(ctx, "dwp_sections", &s.cu_index, SectionId::DebugCuIndex, &m);
+                expect_section(ctx, "dwp_sections", &s.tu_index, SectionId::DebugTuIndex, &m);
+                expect_section(ctx, "dwp_sections", &s.debug_abbrev, SectionId::DebugAbbrev, &m);
+                expect_section(ctx, "dwp_sections", &s.debug_info, SectionId::DebugInfo, &m);
+                expect_section(ctx, "dwp_sections", &s.debug_line, SectionId::DebugLine, &m);
+                expect_section(ctx, "dwp_sections", &s.debug_macinfo, SectionId::DebugMacinfo, &m);
+                expect_section(ctx, "dwp_sections", &s.debug_macro, SectionId::DebugMacro, &m);
+                expect_section(ctx, "dwp_sections", &s.debug_str, SectionId::DebugStr, &m);
+                expect_section(ctx, "dwp_sections", &s.debug_str_offsets, SectionId::DebugStrOffsets, &m);
+                expect_section(ctx, "dwp_sections", &s.debug_loc, SectionId::DebugLoc, &m);
+                expect_section(ctx, "dwp_sections", &s.debug_loclists, SectionId::DebugLocLists, &m);
+                expect_section(ctx, "dwp_sections", &s.debug_rnglists, SectionId::DebugRngLists, &m);
+                expect_section(ctx, "dwp_sections", &s.debug_types, SectionId::DebugTypes, &m);
             } else {
                 ctx.errs += 1;
             }
@@ -295,17 +334,17 @@ pub fn run(case: &Case, ctx: &mut Ctx<'_>) {
             check_requests(ctx, "DwarfPackage::load", &loader.log.borrow(), 13, fail_at, r.is_err());
             if let Ok(p) = r {
                 ctx.item();
-                expect_section(ctx, "dwp", &p.debug_abbrev, &m);
-                expect_section(ctx, "dwp", &p.debug_info, &m);
-                expect_section(ctx, "dwp", &p.debug_line, &m);
-                expect_section(ctx, "dwp", &p.debug_macinfo, &m);
-                expect_section(ctx, "dwp", &p.debug_macro, &m);
-                expect_section(ctx, "dwp", &p.debug_str, &m);
-                expect_section(ctx, "dwp", &p.debug_str_offsets, &m);
-                expect_section(ctx, "dwp", &p.debug_loc, &m);
-                expect_section(ctx, "dwp", &p.debug_loclists, &m);
-                expect_section(ctx, "dwp", &p.debug_rnglists, &m);
-                expect_section(ctx, "dwp", &p.debug_types, &m);
+                expect_section(ctx, "dwp", &p.debug_abbrev, SectionId::DebugAbbrev, &m);
+                expect_section(ctx, "dwp", &p.debug_info, SectionId::DebugInfo, &m);
+                expect_section(ctx, "dwp", &p.debug_line, SectionId::DebugLine, &m);
+                expect_section(ctx, "dwp", &p.debug_macinfo, SectionId::DebugMacinfo, &m);
+                expect_section(ctx, "dwp", &p.debug_macro, SectionId::DebugMacro, &m);
+                expect_section(ctx, "dwp", &p.debug_str, SectionId::DebugStr, &m);
+                expect_section(ctx, "dwp", &p.debug_str_offsets, SectionId::DebugStrOffsets, &m);
+                expect_section(ctx, "dwp", &p.debug_loc, SectionId::DebugLoc, &m);
+                expect_section(ctx, "dwp", &p.debug_loclists, SectionId::DebugLocLists, &m);
+                expect_section(ctx, "dwp", &p.debug_rnglists, SectionId::DebugRngLists, &m);
+                expect_section(ctx, "dwp", &p.debug_types, SectionId::DebugTypes, &m);
                 if case.family != "dwp_load" {
                     let parent: Dwarf<R> = Dwarf::load(|id| -> Result<R, gimli::Error> { Ok(EndianSlice::new(m2.get(id), LittleEndian)) }).unwrap();
                     check_units(ctx, &p, &parent, &m, &m2, v2);
@@ -314,20 +353,124 @@ pub fn run(case: &Case, ctx: &mut Ctx<'_>) {
                 ctx.errs += 1;
             }
         }
+        "names" => {
+            // An object file keyed by section *name*, as a real loader sees it: the loader maps
+            // the requested id to a name through SectionId::{name, dwo_name, xcoff_name} and
+            // looks the name up. Names and contents come from the harness's own table.
+            for container in 0..3usize {
+                let cname = ["elf", "dwo", "xcoff"][container];
+                let std_of = |id: SectionId| -> Option<&'static str> {
+                    let t = std_names(id);
+                    match container {
+                        0 => Some(t.0),
+                        1 => t.1,
+                        _ => t.2,
+                    }
+                };
+                let mut file: std::collections::BTreeMap<&'static str, Vec<u8>> = Default::default();
+                for id in ALL_IDS.iter() {
+                    if let Some(n) = std_of(*id) {
+                        file.insert(n, format!("[[{} in {}]]", n, cname).into_bytes());
+                    }
+                }
+                let by_name = |id: SectionId| -> Result<R, gimli::Error> {
+                    let n = match container {
+                        0 => Some(id.name()),
+                        1 => id.dwo_name(),
+                        _ => id.xcoff_name(),
+                    };
+                    Ok(EndianSlice::new(n.and_then(|n| file.get(n)).map(|v| &v[..]).unwrap_or(&[]), LittleEndian))
+                };
+                let d: Dwarf<R> = Dwarf::load(by_name).unwrap();
+                let want = |id: SectionId| -> &[u8] { std_of(id).and_then(|n| file.get(n)).map(|v| &v[..]).unwrap_or(&[]) };
+                macro_rules! f {
+                    ($f:expr, $id:expr) => {{
+                        let got = $f.reader().slice();
+                        ev!(ctx, "names {} {} len={}", cname, std_names($id).0, got.len());
+                        if got != want($id) {
+                            ctx.violate(
+                                "c17_routing",
+                                format!("{} file: the {} field holds {:?}, the file's section of that type is {:?}", cname, std_names($id).0, String::from_utf8_lossy(got), String::from_utf8_lossy(want($id))),
+                            );
+                        }
+                    }};
+                }
+                f!(d.debug_abbrev, SectionId::DebugAbbrev);
+                f!(d.debug_addr, SectionId::DebugAddr);
+                f!(d.debug_aranges, SectionId::DebugAranges);
+                f!(d.debug_info, SectionId::DebugInfo);
+                f!(d.debug_line, SectionId::DebugLine);
+                f!(d.debug_line_str, SectionId::DebugLineStr);
+                f!(d.debug_macinfo, SectionId::DebugMacinfo);
+                f!(d.debug_macro, SectionId::DebugMacro);
+                f!(d.debug_names, SectionId::DebugNames);
+                f!(d.debug_str, SectionId::DebugStr);
+                f!(d.debug_str_offsets, SectionId::DebugStrOffsets);
+                f!(d.debug_types, SectionId::DebugTypes);
+                f!(d.ranges.debug_ranges(), SectionId::DebugRanges);
+                f!(d.ranges.debug_rnglists(), SectionId::DebugRngLists);
+                for id in [SectionId::DebugLoc, SectionId::DebugLocLists] {
+                    let w = want(id);
+                    if !w.is_empty() {
+                        let got = d.locations.lookup_offset_id(ReaderOffsetId(w.as_ptr() as u64));
+                        if got != Some((id, 0)) {
+                            ctx.violate("c17_routing", format!("{} file: section {} is seen by `locations` as {:?}", cname, std_names(id).0, got));
+                        }
+                    }
+                }
+                // the stand-alone section types, each loaded by name
+                macro_rules! one_named {
+                    ($t:ident) => {{
+                        let s: $t<R> = Section::load(by_name).unwrap();
+                        f!(s, SectionId::$t);
+                    }};
+                }
+                one_named!(DebugCuIndex);
+                one_named!(DebugTuIndex);
+                one_named!(DebugFrame);
+                one_named!(EhFrame);
+                one_named!(EhFrameHdr);
+                one_named!(DebugPubNames);
+                one_named!(DebugPubTypes);
+                one_named!(DebugLoc);
+                one_named!(DebugLocLists);
+                one_named!(DebugRanges);
+                one_named!(DebugRngLists);
+                if container == 1 {
+                    // a package is loaded with the .dwo names
+                    let p: DwarfPackageSections<R> = DwarfPackageSections::load(by_name).unwrap();
+                    f!(p.cu_index, SectionId::DebugCuIndex);
+                    f!(p.tu_index, SectionId::DebugTuIndex);
+                    f!(p.debug_abbrev, SectionId::DebugAbbrev);
+                    f!(p.debug_info, SectionId::DebugInfo);
+                    f!(p.debug_line, SectionId::DebugLine);
+                    f!(p.debug_macinfo, SectionId::DebugMacinfo);
+                    f!(p.debug_macro, SectionId::DebugMacro);
+                    f!(p.debug_str, SectionId::DebugStr);
+                    f!(p.debug_str_offsets, SectionId::DebugStrOffsets);
+                    f!(p.debug_loc, SectionId::DebugLoc);
+                    f!(p.debug_loclists, SectionId::DebugLocLists);
+                    f!(p.debug_rnglists, SectionId::DebugRngLists);
+                    f!(p.debug_types, SectionId::DebugTypes);
+                }
+                ctx.item();
+            }
+        }
         "section_load_each" => {
             macro_rules! one {
                 ($t:ident) => {{
                     let before = loader.log.borrow().len();
                     let r: Result<$t<R>, gimli::Error> = Section::load(|id| loader.load(id));
                     let log = loader.log.borrow();
-                    if log.len() != before + 1 || log[before] != <$t<R> as Section<R>>::id() {
+                    // the type name and the variant name coincide; the pairing is the harness's
+                    if log.len() != before + 1 || log[before] != SectionId::$t {
                         ctx.violate("c17_requests", format!("{}::load requested {:?}", stringify!($t), log[before..].iter().map(|i| i.name()).collect::<Vec<_>>()));
                     }
                     drop(log);
                     match r {
                         Ok(s) => {
                             ctx.item();
-                            expect_section(ctx, "Section::load", &s, &m);
+                            expect_section(ctx, "Section::load", &s, SectionId::$t, &m);
                         }
                         Err(_) => ctx.errs += 1,
                     }
@@ -412,7 +555,7 @@ pub fn run(case: &Case, ctx: &mut Ctx<'_>) {
                     ctx.violate("c17_routing", "make_dwo: file_type is not Dwo".into());
                 }
                 match dwo.sup() {
-                    Some(s) => expect_section(ctx, "make_dwo sup", &s.debug_str, &supm),
+                    Some(s) => expect_section(ctx, "make_dwo sup", &s.debug_str, SectionId::DebugStr, &supm),
                     None => ctx.violate("c17_routing", "make_dwo: parent's sup not inherited".into()),
                 }
             } else {
@@ -656,9 +799,9 @@ fn check_units<'a>(ctx: &mut Ctx<'_>, p: &DwarfPackage<R<'a>>, parent: &Dwarf<R<
                         }
                     }
                 }
-                expect_section(ctx, &what, &d.debug_str, m);
-                expect_section(ctx, &what, &d.debug_addr, m2);
-                expect_section(ctx, &what, d.ranges.debug_ranges(), m2);
+                expect_section(ctx, &what, &d.debug_str, SectionId::DebugStr, m);
+                expect_section(ctx, &what, &d.debug_addr, SectionId::DebugAddr, m2);
+                expect_section(ctx, &what, d.ranges.debug_ranges(), SectionId::DebugRanges, m2);
                 if d.file_type != DwarfFileType::Dwo {
                     ctx.violate("c17_routing", format!("{}: unit is not marked Dwo", what));
                 }
